@@ -182,6 +182,10 @@ func parseSelModel(sel string) ([]selSeg, bool) {
 				j++
 			}
 			if j == i+1 {
+				if j < len(sel) && sel[j] == '[' {
+					i = j // ".[...]": the identity, then a bracket segment
+					continue
+				}
 				return nil, false
 			}
 			out = append(out, selSeg{field: sel[i+1 : j], isField: true})
@@ -193,7 +197,10 @@ func parseSelModel(sel string) ([]selSeg, bool) {
 			}
 			body := sel[i+1 : i+j]
 			i += j + 1
-			if c := strings.IndexByte(body, ':'); c >= 0 {
+			if len(body) >= 2 && body[0] == '"' && body[len(body)-1] == '"' {
+				// ["name"]: a field by quoted name (the generator uses plain names only)
+				out = append(out, selSeg{field: body[1 : len(body)-1], isField: true})
+			} else if c := strings.IndexByte(body, ':'); c >= 0 {
 				sg := selSeg{}
 				if body[:c] != "" {
 					n, err := strconv.Atoi(body[:c])
